@@ -1,6 +1,10 @@
 #!/bin/sh
-# Build the whole framework offline from files on disk: models, proofs, property theorems, driver.
+# Build the whole framework offline from files on disk: models, proofs, property theorems, drivers.
 cd "$(dirname "$0")" || exit 2
 export PYTHONPATH="$(pwd):/repo"
 /venv/bin/python -c 'from harness import core; print(core.regen_consts())' || exit 2
-cd lean && flock .build.lock lake build Afkak AfkakProofs AfkakProps Driver model_partitioner model_assign model_wire model_brokerclient model_client model_producer model_consumer model_group
+cd lean || exit 2
+EXES=$(grep -o 'name = "model_[a-z]*"' lakefile.toml | cut -d'"' -f2 | tr '\n' ' ')
+# Only the property files that have a claim (a check) must build; everything they import follows.
+PROPS=$(ls ../harness/claims | sed 's/\.json$//; s/^/AfkakProps./' | tr '\n' ' ')
+flock .build.lock lake build $PROPS $EXES
